@@ -138,3 +138,15 @@ Proof.
   rewrite firstn_all2 by (rewrite map_length; lia).
   rewrite sum_nat_app. f_equal. apply widths_sum.
 Qed.
+
+(* U+FFFD comes either from one ill-formed byte (width 1) or from its own encoding *)
+Lemma decode_rune_error s :
+  s <> [] -> fst (decode s) = RuneError -> snd (decode s) = 1%nat \/ firstn 3 s = [239; 191; 189].
+Proof.
+  intros Hne. unfold decode, RuneError, is_cont.
+  destruct s as [|b0 [|b1 [|b2 [|b3 s]]]]; [congruence| | | |]; cbn [firstn];
+    decode_cases; cbn [fst snd]; intros H; try (left; reflexivity); try lia;
+    try (right; repeat f_equal; lia).
+  all: repeat match goal with Hc : context [if ?c then _ else _] |- _ => destruct c eqn:? end;
+    try lia; try (right; repeat f_equal; lia).
+Qed.
